@@ -154,6 +154,29 @@ type c07World struct {
 	foreign  map[int64]bool // goroutines of the harness's own direct reads
 	fdb      *fsDB
 	tableID  int
+	// the poll loop's column-map cache, per table: schema version (grows with every reorder), the version each
+	// event was written under, and what the poll loop saw and fetched, in order
+	tver   map[string]int
+	evVer  map[*replication.BinlogEvent]int
+	colLog map[string][]map[string]interface{}
+}
+
+// colPoll records an event the poll loop received (called under w.mu)
+func (w *c07World) colPoll(ev *replication.BinlogEvent) {
+	switch inner := ev.Event.(type) {
+	case *replication.RowsEvent:
+		t := string(inner.Table.Table)
+		if _, ok := w.tver[t]; !ok || string(inner.Table.Schema) != "db" {
+			return
+		}
+		w.colLog[t] = append(w.colLog[t], map[string]interface{}{"k": "rows", "v": w.evVer[ev], "cur": w.tver[t]})
+	case *replication.TableMapEvent:
+		t := string(inner.Table)
+		if _, ok := w.tver[t]; !ok || string(inner.Schema) != "db" {
+			return
+		}
+		w.colLog[t] = append(w.colLog[t], map[string]interface{}{"k": "tmap", "id": inner.TableID, "v": w.evVer[ev]})
+	}
 }
 
 func c07ModelRow(r map[string]driver.Value) interface{} {
@@ -244,8 +267,11 @@ func (w *c07World) reorder(ch chan *replication.BinlogEvent, table string, seed 
 			}
 			t.Cols = cols
 			w.tableID++
-			w.pending = append(w.pending, c07Pending{&replication.BinlogEvent{Header: &replication.EventHeader{EventType: replication.TABLE_MAP_EVENT},
-				Event: &replication.TableMapEvent{Schema: []byte("db"), Table: []byte(table), TableID: uint64(100 + w.tableID)}}, false})
+			w.tver[table]++
+			ev := &replication.BinlogEvent{Header: &replication.EventHeader{EventType: replication.TABLE_MAP_EVENT},
+				Event: &replication.TableMapEvent{Schema: []byte("db"), Table: []byte(table), TableID: uint64(100 + w.tableID)}}
+			w.evVer[ev] = w.tver[table]
+			w.pending = append(w.pending, c07Pending{ev, false})
 			w.seq++
 		}
 		w.mu.Unlock()
@@ -327,6 +353,7 @@ func (w *c07World) endStatement() {
 			}
 		}
 		ev.Event = re
+		w.evVer[ev] = w.tver[group[0].table]
 		w.labels = append(w.labels, lab)
 		w.seq++
 		w.pending = append(w.pending, c07Pending{ev, true})
@@ -346,9 +373,12 @@ func (w *c07World) noise(kind int) {
 	case 1: // a table sqlgen does not know
 		w.pending = append(w.pending, c07Pending{&replication.BinlogEvent{Header: &replication.EventHeader{EventType: replication.WRITE_ROWS_EVENTv2},
 			Event: &replication.RowsEvent{Table: &replication.TableMapEvent{Schema: []byte("db"), Table: []byte("unknown_table")}, Rows: [][]interface{}{row}}}, false})
-	case 2: // a new version of a table: column information is fetched again
-		w.pending = append(w.pending, c07Pending{&replication.BinlogEvent{Header: &replication.EventHeader{EventType: replication.TABLE_MAP_EVENT},
-			Event: &replication.TableMapEvent{Schema: []byte("db"), Table: []byte(c07Tables[w.rnd.Intn(2)]), TableID: uint64(w.rnd.Intn(5))}}, false})
+	case 2: // a table map event (MySQL writes one before every rows event): a new id makes the poll loop fetch column information again
+		t := c07Tables[w.rnd.Intn(2)]
+		ev := &replication.BinlogEvent{Header: &replication.EventHeader{EventType: replication.TABLE_MAP_EVENT},
+			Event: &replication.TableMapEvent{Schema: []byte("db"), Table: []byte(t), TableID: uint64(w.rnd.Intn(5))}}
+		w.evVer[ev] = w.tver[t]
+		w.pending = append(w.pending, c07Pending{ev, false})
 	case 3: // some other event
 		w.pending = append(w.pending, c07Pending{&replication.BinlogEvent{Header: &replication.EventHeader{EventType: replication.XID_EVENT}, Event: &replication.XIDEvent{}}, false})
 	}
@@ -433,7 +463,11 @@ func (w *c07World) direct(db *sqlgen.DB, q c07Query) ([]int64, []string, error) 
 func c07One(c *Ctx, m *Model, cs c07Case) {
 	rep := c.Rep
 	w := &c07World{rnd: NewRand(cs.Seed), cur: map[int64]int{}, resOf: map[interface{}]int{}, curRes: map[int]interface{}{},
-		held: map[int][]int64{}, heldFull: map[int][]string{}, foreign: map[int64]bool{}}
+		held: map[int][]int64{}, heldFull: map[int][]string{}, foreign: map[int64]bool{},
+		tver: map[string]int{}, evVer: map[*replication.BinlogEvent]int{}, colLog: map[string][]map[string]interface{}{}}
+	for _, t := range c07Tables {
+		w.tver[t] = 0
+	}
 	fdb, conn := newFakeDB()
 	w.fdb = fdb
 	tablesEnc := []interface{}{}
@@ -464,6 +498,14 @@ func c07One(c *Ctx, m *Model, cs c07Case) {
 	}
 	fdb.onExecEnd = w.endStatement
 	fdb.onLog = func(st fsStmt) {
+		if strings.Contains(st.SQL, "information_schema") && len(st.Args) == 2 {
+			// the poll loop fetches the column information of a table
+			w.mu.Lock()
+			t := fmt.Sprint(st.Args[1])
+			w.colLog[t] = append(w.colLog[t], map[string]interface{}{"k": "fetch"})
+			w.mu.Unlock()
+			return
+		}
 		if !strings.HasPrefix(st.SQL, "SELECT") || strings.Contains(st.SQL, "information_schema") {
 			return
 		}
@@ -512,6 +554,9 @@ func c07One(c *Ctx, m *Model, cs c07Case) {
 			}
 		case "poll":
 			w.polled++
+			if ev, ok := a.(*replication.BinlogEvent); ok {
+				w.colPoll(ev)
+			}
 		}
 	}
 	defer func() { livesql.VerifHook = nil }()
@@ -827,6 +872,50 @@ func c07One(c *Ctx, m *Model, cs c07Case) {
 	if w.delivers != w.expected {
 		rep.Fail("impl_ne_spec", nil, cs, map[string]interface{}{"what": "a change event of a tracked table did not reach the tracker (dropped)", "delivered": w.delivers, "expected": w.expected})
 		return
+	}
+	// the poll loop's column-map cache, per table: the model says for which rows events column information is
+	// fetched (the first one, and the first one after a table map event with a new id) and that under the change
+	// log's discipline every event is decoded with the map of its own version
+	for _, t := range c07Tables {
+		var evs []interface{}
+		var want []string
+		for _, e := range w.colLog[t] {
+			if e["k"] != "fetch" {
+				evs = append(evs, e)
+			}
+		}
+		if len(evs) == 0 {
+			continue
+		}
+		cresp, err := m.Call(map[string]interface{}{"op": "colmap", "v0": 0, "events": evs})
+		if err != nil {
+			rep.Fail("harness_error", nil, cs, map[string]interface{}{"error": err.Error()})
+			return
+		}
+		if !cresp["wf"].(bool) {
+			rep.Fail("harness_error", nil, cs, map[string]interface{}{"error": "the harness's change log breaks the discipline the column-map theorem assumes", "table": t, "log": w.colLog[t]})
+			return
+		}
+		if !cresp["right"].(bool) {
+			rep.Fail("model_ne_spec", nil, cs, map[string]interface{}{"what": "model: a rows event decoded with the map of another version under the discipline (theorem schema_change_decodes_right)", "table": t})
+			return
+		}
+		outs := cresp["outs"].([]interface{})
+		for i, e := range evs {
+			want = append(want, fmt.Sprint(e.(map[string]interface{})["k"]))
+			if om, ok := outs[i].(map[string]interface{}); ok && om["fetched"].(bool) {
+				want = append(want, "fetch")
+			}
+		}
+		var got []string
+		for _, e := range w.colLog[t] {
+			got = append(got, fmt.Sprint(e["k"]))
+		}
+		if fmt.Sprint(got) != fmt.Sprint(want) {
+			rep.Fail("impl_ne_model", nil, cs, map[string]interface{}{"what": "the poll loop's fetches of column information differ from the model's (a kept column map not dropped on a new table id, or dropped needlessly)", "table": t, "impl": got, "model": want, "log": w.colLog[t]})
+			return
+		}
+		rep.Count(fmt.Sprintf("column_map_fetches=%d", len(got)-len(evs)))
 	}
 	// the log, replayed in the model
 	labels := []interface{}{}
